@@ -219,8 +219,9 @@ static inline int readline_putchar(struct readline *rl, char c)
             break;
 
         default:
-            sline_putchar(&rl->line, c);
-            retcode = READLINE_ECHOCHAR;
+            // a character the full line refused must not be echoed either
+            retcode = sline_putchar(&rl->line, c) ? READLINE_ECHOCHAR
+                                                  : READLINE_OVERFLOW;
             break;
         }
         break;
